@@ -20,7 +20,8 @@
 //
 // 2. whole scenarios over inproc with real dialers/listeners, several concurrent requesters, real
 //    devices; decided by library quiescence (hook H2q), never by a timeout:
-//      ichain <fam> <ttls|-> <tr> <nreq> <nrep> <rawreq> <rawrep> <rounds>
+//      ichain <fam> <ttls|-> <tr> <nreq> <nrep> <rawreq> <rawrep> <rounds> [late]
+//         (late = 1: every NNG_OPT_MAXTTL first gets another value and its real one only after all peers are connected)
 //         fam reqrep|survey: nreq requesters/surveyors -> device 1 .. device n (front socket ttl t_i)
 //                            -> nrep repliers/respondents (ttl tr)
 //         fam pair1: one cooked sender (ttl nreq!) -> n raw devices (both sockets ttl t_i) -> one receiver (ttl tr)
@@ -203,6 +204,8 @@ cmd_ichain(char **tok, int nt)
 	int         rawreq = atoi(tok[6]), rawrep = atoi(tok[7]), rounds = atoi(tok[8]);
 	int         pair = strcmp(fam, "pair1") == 0, surv = strcmp(fam, "survey") == 0;
 	int         sender_ttl = nreq;
+	int         lateopt = nt > 9 ? atoi(tok[9]) : 0; // 1: NNG_OPT_MAXTTL gets its value only AFTER all peers are connected
+#define ALT(t) (lateopt ? ((t) == 8 ? 15 : 16 - (t)) : (t))
 	nng_socket  front[MAXCH], back[MAXCH], req[MAXREQ], rep[MAXREP];
 	nng_aio    *daio[MAXCH];
 	char        url[64];
@@ -210,7 +213,6 @@ cmd_ichain(char **tok, int nt)
 	    wrong = 0, extra = 0, late = 0;
 	char hops[256];
 	hops[0] = 0;
-	(void) nt;
 	if (strcmp(tok[2], "-") != 0) {
 		char *sp = NULL, *c = strdup(tok[2]);
 		for (char *t = strtok_r(c, ",", &sp); t != NULL && n < MAXCH; t = strtok_r(NULL, ",", &sp))
@@ -234,7 +236,7 @@ cmd_ichain(char **tok, int nt)
 	snprintf(url, sizeof(url), "inproc://c13-%d-%d", icase, n + 1);
 	for (int j = 0; j < nrep; j++) {
 		CK(open_proto(rep_p, &rep[j]));
-		CK(set_ttl(rep[j], tr));
+		CK(set_ttl(rep[j], ALT(tr)));
 		if (j == 0) {
 			CK(nng_listen(rep[j], url, NULL, 0));
 		}
@@ -248,8 +250,8 @@ cmd_ichain(char **tok, int nt)
 	for (int i = n; i >= 1; i--) {
 		CK(open_proto(front_p, &front[i]));
 		CK(open_proto(back_p, &back[i]));
-		CK(set_ttl(front[i], ttls[i - 1]));
-		if (pair) CK(set_ttl(back[i], ttls[i - 1]));
+		CK(set_ttl(front[i], ALT(ttls[i - 1])));
+		if (pair) CK(set_ttl(back[i], ALT(ttls[i - 1])));
 		snprintf(url, sizeof(url), "inproc://c13-%d-%d", icase, i);
 		CK(nng_listen(front[i], url, NULL, 0));
 		snprintf(url, sizeof(url), "inproc://c13-%d-%d", icase, i + 1);
@@ -260,13 +262,11 @@ cmd_ichain(char **tok, int nt)
 				CK(nng_dial(back[i], url, NULL, 0));
 			}
 		}
-		CK(nng_aio_alloc(&daio[i], NULL, NULL));
-		nng_device_aio(daio[i], front[i], back[i]);
 	}
 	snprintf(url, sizeof(url), "inproc://c13-%d-%d", icase, 1);
 	for (int j = 0; j < nreq; j++) {
 		CK(open_proto(req_p, &req[j]));
-		if (pair) CK(set_ttl(req[j], sender_ttl));
+		if (pair) CK(set_ttl(req[j], ALT(sender_ttl)));
 		if (!pair && !surv && !rawreq) CK(nng_socket_set_ms(req[j], NNG_OPT_REQ_RESENDTIME, NNG_DURATION_INFINITE));
 		if (surv && !rawreq) CK(nng_socket_set_ms(req[j], NNG_OPT_SURVEYOR_SURVEYTIME, 3600000));
 		CK(nng_socket_set_ms(req[j], NNG_OPT_SENDTIMEO, 10000));
@@ -280,6 +280,16 @@ cmd_ichain(char **tok, int nt)
 		}
 	}
 	for (int j = 0; j < nrep; j++) CK(nng_socket_set_ms(rep[j], NNG_OPT_SENDTIMEO, 10000));
+	if (vt_quiesce() != 0 && rv == 0) rv = -1;
+	// everybody is connected: the hop limits get their values (again), then the devices start
+	for (int j = 0; j < nrep; j++) CK(set_ttl(rep[j], tr));
+	if (pair) CK(set_ttl(req[0], sender_ttl));
+	for (int i = n; i >= 1; i--) {
+		CK(set_ttl(front[i], ttls[i - 1]));
+		if (pair) CK(set_ttl(back[i], ttls[i - 1]));
+		CK(nng_aio_alloc(&daio[i], NULL, NULL));
+		nng_device_aio(daio[i], front[i], back[i]);
+	}
 	if (vt_quiesce() != 0 && rv == 0) rv = -1;
 
 	for (int r = 0; r < rounds && rv == 0; r++) {
